@@ -1,6 +1,7 @@
 package engine
 
 import (
+	"go/types"
 	"strings"
 )
 
@@ -167,6 +168,9 @@ func (it *Interp) syncOp(name string, args []Value) Value {
 		it.rm.oncePassed[oncePass{p, it.threadID()}] = true
 		return nil
 	}
+	if strings.HasPrefix(name, "(*sync/atomic.") {
+		return it.atomicMethod(name, args)
+	}
 	if strings.HasPrefix(name, "sync/atomic.") {
 		op := strings.TrimPrefix(name, "sync/atomic.")
 		p, _ := args[0].(*Value)
@@ -223,6 +227,121 @@ func (it *Interp) syncOp(name string, args []Value) Value {
 				return nv
 			}
 			return cur
+		}
+	}
+	panic(abortPath{"sync primitive not modelled: " + name})
+}
+
+// atomicMethod models the methods of sync/atomic's types (Value, Bool, Int32,
+// Int64, Uint32, Uint64): the payload is the last field of the struct; every
+// operation is a scheduling point under vnPar and is never an unguarded access.
+func (it *Interp) atomicMethod(name string, args []Value) Value {
+	i := strings.Index(name, ").")
+	typ, op := name[len("(*sync/atomic."):i], name[i+2:]
+	p, _ := args[0].(*Value)
+	if p == nil {
+		panic(runtimePanic("invalid memory address or nil pointer dereference"))
+	}
+	st, ok := (*p).(Struct)
+	if !ok || len(st) == 0 {
+		panic(abortPath{"sync primitive not modelled: " + name})
+	}
+	cell := &st[len(st)-1]
+	if it.par != nil {
+		it.parYield()
+	}
+	isNilIface := func(v Value) bool {
+		f, ok := v.(Iface)
+		return !ok || f.t == nil
+	}
+	switch typ {
+	case "Value":
+		switch op {
+		case "Load":
+			if isNilIface(*cell) {
+				return Iface{}
+			}
+			return copyVal(*cell)
+		case "Store":
+			if isNilIface(args[1]) {
+				panic(targetPanic{mkStringIface("sync/atomic: store of nil value into Value")})
+			}
+			if old, ok := (*cell).(Iface); ok && old.t != nil && !types.Identical(old.t, args[1].(Iface).t) {
+				panic(targetPanic{mkStringIface("sync/atomic: store of inconsistently typed value into Value")})
+			}
+			storeRaw(cell, args[1])
+			return nil
+		case "Swap":
+			old := Value(Iface{})
+			if !isNilIface(*cell) {
+				old = copyVal(*cell)
+			}
+			storeRaw(cell, args[1])
+			return old
+		}
+	case "Bool":
+		switch op {
+		case "Load":
+			v, _ := (*cell).(int64)
+			return v != 0
+		case "Store", "Swap":
+			old, _ := (*cell).(int64)
+			nv := int64(0)
+			if b, _ := args[1].(bool); b {
+				nv = 1
+			}
+			storeRaw(cell, nv)
+			if op == "Swap" {
+				return old != 0
+			}
+			return nil
+		case "CompareAndSwap":
+			cur, _ := (*cell).(int64)
+			o, _ := args[1].(bool)
+			if (cur != 0) == o {
+				nv := int64(0)
+				if b, _ := args[2].(bool); b {
+					nv = 1
+				}
+				storeRaw(cell, nv)
+				return true
+			}
+			return false
+		}
+	case "Int32", "Int64", "Uint32", "Uint64":
+		switch op {
+		case "Load":
+			return copyVal(*cell)
+		case "Store":
+			storeRaw(cell, args[1])
+			return nil
+		case "Swap":
+			old := copyVal(*cell)
+			storeRaw(cell, args[1])
+			return old
+		case "Add":
+			cur, ok1 := (*cell).(int64)
+			d, ok2 := args[1].(int64)
+			if !ok1 || !ok2 {
+				panic(abortPath{"symbolic atomic arithmetic"})
+			}
+			bits, signed := 64, !strings.HasPrefix(typ, "U")
+			if strings.HasSuffix(typ, "32") {
+				bits = 32
+			}
+			nv := normInt(cur+d, intRange{bits, signed})
+			storeRaw(cell, nv)
+			return nv
+		case "CompareAndSwap":
+			eq := eqTerm(*cell, args[1])
+			b, ok := eq.(bool)
+			if !ok {
+				b = it.ex.decide(eq.(*Term))
+			}
+			if b {
+				storeRaw(cell, args[2])
+			}
+			return b
 		}
 	}
 	panic(abortPath{"sync primitive not modelled: " + name})
